@@ -1,0 +1,5 @@
+//go:build !verif
+
+package agent
+
+func verifYieldTunnel(string) {}
